@@ -4,6 +4,8 @@ CONSTANTS
   HNat <- MCNat
   HMol <- MCMol
   HWins <- MCWins
+  HEntries = {"model", "contrib", "full"}
+  HSlipKinds = {"swap", "nocut", "left", "leftfail"}
   HLevels = {"request", "clip"}
   HKeys = {"none", "content", "points", "size", "first", "ends"}
   HWhats = {"grid", "sed", "op"}
@@ -29,4 +31,14 @@ INVARIANT Ref_clip_size_op
 INVARIANT Ref_clip_first_sed
 INVARIANT Ref_clip_first_op
 INVARIANT Ref_kept_across_full
+INVARIANT Ref_slip_swap_model
+INVARIANT Ref_slip_swap_contrib
+INVARIANT Ref_slip_swap_full
+INVARIANT Ref_slip_nocut_model
+INVARIANT Ref_slip_nocut_contrib
+INVARIANT Ref_slip_nocut_full
+INVARIANT Ref_slip_left_contrib
+INVARIANT Ref_slip_left_full
+INVARIANT Ref_slip_leftfail_contrib
+INVARIANT Ref_slip_leftfail_full
 CHECK_DEADLOCK FALSE
